@@ -492,6 +492,9 @@ def tt_ind2sub(
     """
     if idx.size == 0:
         return np.empty(shape=(0, len(shape)), dtype=int)
+    if len(shape) == 0:
+        # Order-0 index space: every linear index maps to the empty subscript
+        return np.empty(shape=(idx.size, 0), dtype=int)
     idx[idx < 0] += prod(shape)  # Handle negative indexing as simply as possible
     return np.array(np.unravel_index(idx, shape, order=order)).transpose()
 
